@@ -133,6 +133,8 @@ type c15Plan struct {
 	slow   []bool          // the state's initiation lasts longer than the transition check interval
 	phases [][]c15Delivery // deliveries while state p is current, in order
 	// ending: "final" | "init-error" | "next-error" | "cancel-during-init" |
+	// "init-error-under-traffic" (the initiation fails while the machine is
+	// busy inside Receive) |
 	// "cancel-before-allow" | "cancel-under-traffic" (the run is cancelled
 	// while the machine is busy inside Receive and `queued` more messages are
 	// waiting, so cancellation competes with everything else that is ready)
@@ -243,11 +245,11 @@ func c15GenPlan(t *rapid.T, label string) *c15Plan {
 		p.phases[ph] = append(before, after...)
 	}
 	p.ending = rapid.SampledFrom([]string{"final", "final", "final", "final", "init-error", "next-error", "cancel-during-init", "cancel-before-allow",
-		"cancel-under-traffic", "cancel-under-traffic", "cancel-under-traffic"}).Draw(t, label+"ending")
+		"cancel-under-traffic", "cancel-under-traffic", "cancel-under-traffic", "init-error-under-traffic", "init-error-under-traffic"}).Draw(t, label+"ending")
 	p.queued = rapid.IntRange(0, 2).Draw(t, label+"queuedBehindBusyReceive")
 	p.slowRecv = rapid.IntRange(0, 2).Draw(t, label+"slowReceiverRegistration") == 0
 	p.burstState = -1
-	if p.ending != "cancel-under-traffic" && rapid.IntRange(0, 3).Draw(t, label+"burst") == 0 {
+	if p.ending != "cancel-under-traffic" && p.ending != "init-error-under-traffic" && rapid.IntRange(0, 3).Draw(t, label+"burst") == 0 {
 		p.burstState = rapid.IntRange(0, p.endState).Draw(t, label+"burstState")
 		p.burst = asyncReceiveBuffer + rapid.IntRange(1, 40).Draw(t, label+"burstBeyondBuffer")
 	}
@@ -337,7 +339,7 @@ func (s *c15State) Initiate(ctx context.Context) error {
 	c.mu.Unlock()
 	c.event(c15Event{kind: "init-end", state: s.idx})
 	close(c.initEnded[s.idx])
-	if c.plan.ending == "init-error" && c.plan.endState == s.idx {
+	if (c.plan.ending == "init-error" || c.plan.ending == "init-error-under-traffic") && c.plan.endState == s.idx {
 		return errC15Init
 	}
 	return nil
@@ -416,7 +418,7 @@ func c15Run(plan *c15Plan) (*c15Chain, *c15Outcome) {
 	for i := 0; i < n; i++ {
 		c.initStarted[i], c.initEnded[i], c.gate[i] = make(chan struct{}), make(chan struct{}), make(chan struct{})
 	}
-	if plan.ending == "cancel-under-traffic" {
+	if plan.ending == "cancel-under-traffic" || plan.ending == "init-error-under-traffic" {
 		c.blockID = 1000 + plan.endState
 	} else if plan.burstState >= 0 {
 		c.blockID = 3000 + plan.burstState
@@ -540,6 +542,53 @@ func c15Run(plan *c15Plan) (*c15Chain, *c15Outcome) {
 		if plan.ending == "cancel-during-init" && plan.endState == p {
 			cancel()
 			awaitEnd(p)
+			break
+		}
+		if plan.ending == "init-error-under-traffic" && plan.endState == p {
+			// the initiation fails at the moment the machine's loop is busy
+			// inside Receive: the failure has to wait for the loop, it must
+			// not get lost
+			seq++
+			out.delivered = append(out.delivered, c15Delivery{forState: n + 5, id: c.blockID})
+			out.phaseOf = append(out.phaseOf, p)
+			out.beforeInit = append(out.beforeInit, true)
+			if ch.deliver(&c15Msg{typ: c15Type(n + 5), id: c.blockID, seq: seq}) == 0 {
+				out.violation = fmt.Sprintf("message delivered while state %d is current found no registered handler (lost)", p)
+				break
+			}
+			if !waitFor("the machine to enter Receive", c.recvEntered) {
+				break
+			}
+			close(c.gate[p])
+			gateOpen[p] = true
+			if !waitFor(fmt.Sprintf("end of Initiate of state %d", p), c.initEnded[p]) {
+				break
+			}
+			// the transition routine gets a moment to report the failure (a
+			// schedule, not a verdict), then the loop is let go
+			time.Sleep(transitionCheckInterval / 4)
+			close(c.recvRelease)
+			released = true
+			if !waitFor("the end of the long Receive", c.acks) {
+				break
+			}
+			// Decided by events only: the pending failure competes with at
+			// most one queued message per round, and a select picks among
+			// ready cases uniformly - if the machine takes c15Rounds messages
+			// in a row and still has not reported the failure, the failure
+			// is gone (chance of that with the failure pending: 2^-c15Rounds).
+			for k := 0; k < c15Rounds && !finished && out.inconclusive == ""; k++ {
+				seq++
+				out.delivered = append(out.delivered, c15Delivery{forState: n + 6, id: 5000 + k, afterInit: true})
+				out.phaseOf = append(out.phaseOf, p)
+				out.beforeInit = append(out.beforeInit, false)
+				out.optionalTail++
+				ch.deliver(&c15Msg{typ: c15Type(n + 6), id: 5000 + k, seq: seq})
+				waitFor("the failed initiation to be reported", c.acks)
+			}
+			if !finished && out.inconclusive == "" {
+				out.violation = fmt.Sprintf("the initiation of state %d failed while the machine was busy receiving; the machine went on receiving %d more messages and never reported the failure", p, c15Rounds)
+			}
 			break
 		}
 		if plan.slow[p] {
@@ -743,7 +792,7 @@ func c15Verify(c *c15Chain, out *c15Outcome) string {
 			if _, ok := initEnd[e.state]; !ok {
 				return fmt.Sprintf("Next of state %d called before its Initiate returned", e.state)
 			}
-			if plan.ending == "init-error" && plan.endState == e.state {
+			if (plan.ending == "init-error" || plan.ending == "init-error-under-traffic") && plan.endState == e.state {
 				return fmt.Sprintf("Next of state %d called although its Initiate failed", e.state)
 			}
 			if _, ok := lastTrueCan[e.state]; !ok {
@@ -824,7 +873,7 @@ func c15Verify(c *c15Chain, out *c15Outcome) string {
 		if len(visited) != plan.states || len(nextAt) != plan.states {
 			return fmt.Sprintf("visited %v, left %d states; the chain has %d", visited, len(nextAt), plan.states)
 		}
-	case "init-error":
+	case "init-error", "init-error-under-traffic":
 		if out.final != nil || !errors.Is(out.err, errC15Init) {
 			return fmt.Sprintf("Execute returned (%v, %v), expected the initiation error of state %d", out.final, out.err, plan.endState)
 		}
@@ -850,6 +899,9 @@ func c15Verify(c *c15Chain, out *c15Outcome) string {
 }
 
 const c15OwnID = 9000
+
+// c15Rounds: see the init-error-under-traffic ending
+const c15Rounds = 64
 
 func c15Head(l []int) []int {
 	if len(l) > 6 {
